@@ -7,6 +7,10 @@ Extracted (fail closed on any other shape):
   * load_cropped_and_aligned_image: is it decorated with lru_cache, its maxsize, its parameter list
     (= the memoisation key)                                             -> src_memoised, src_memo_maxsize, src_memo_key
   * load_image: the tuple of separators tried for .txt/.data, in order  -> src_delims
+  * what could keep loaded content between two calls, in pyxel/inputs/loader.py, pyxel/util/image.py and the two
+    loading models: caching decorators on any function, module-level containers that a function mutates
+    (subscript store / del, mutating method call, `global`), mutable default arguments, attributes stored on
+    functions                                                            -> src_loader_state (names; [] = none)
 """
 from __future__ import annotations
 
@@ -173,7 +177,84 @@ def _delims(repo: Path) -> list[str]:
     return out
 
 
-def render(names, align, memo, maxsize, key, delims) -> str:
+STATE_FILES = ("pyxel/inputs/loader.py", "pyxel/util/image.py", "pyxel/models/photon_collection/load_image.py",
+               "pyxel/models/charge_generation/load_charge.py")
+CONTAINER_CALLS = {"dict", "list", "set", "OrderedDict", "defaultdict", "WeakValueDictionary", "deque", "Counter",
+                   "collections.OrderedDict", "collections.defaultdict", "collections.deque",
+                   "weakref.WeakValueDictionary", "LRUCache", "TTLCache"}
+MUTATORS = {"pop", "popitem", "update", "setdefault", "append", "add", "clear", "insert", "extend", "remove",
+            "discard", "move_to_end", "appendleft", "__setitem__", "__delitem__"}
+# decorators that do not keep results (anything else on a function of these files fails closed)
+PLAIN_DECORATORS = {"staticmethod", "classmethod", "property", "overload", "typing.overload", "deprecated",
+                    "typing.no_type_check", "no_type_check"}
+
+
+def _is_container(v: ast.AST) -> bool:
+    if isinstance(v, (ast.Dict, ast.List, ast.Set, ast.DictComp, ast.ListComp, ast.SetComp)):
+        return True
+    return isinstance(v, ast.Call) and ast.unparse(v.func) in CONTAINER_CALLS
+
+
+def _state(repo: Path) -> list[str]:
+    """Names of everything that could carry loaded content from one call to the next."""
+    found: list[str] = []
+    for rel in STATE_FILES:
+        tree = parse(repo, rel)
+        short = rel.rsplit("/", 1)[1][:-3]
+        module_containers, func_names = set(), set()
+        for st in tree.body:
+            tgt = None
+            if isinstance(st, ast.Assign) and len(st.targets) == 1 and isinstance(st.targets[0], ast.Name):
+                tgt, val = st.targets[0].id, st.value
+            elif isinstance(st, ast.AnnAssign) and isinstance(st.target, ast.Name) and st.value is not None:
+                tgt, val = st.target.id, st.value
+            if tgt is not None and _is_container(val):
+                module_containers.add(tgt)
+            if isinstance(st, (ast.FunctionDef, ast.AsyncFunctionDef)):
+                func_names.add(st.name)
+        for fn in [n for n in ast.walk(tree) if isinstance(n, (ast.FunctionDef, ast.AsyncFunctionDef))]:
+            if fn.name == "load_cropped_and_aligned_image" and short == "image":
+                decos = []                               # read by _memo (src_memoised)
+            else:
+                decos = fn.decorator_list
+            for d in decos:
+                name = ast.unparse(d.func if isinstance(d, ast.Call) else d)
+                if "cache" in name.lower() or "memo" in name.lower():
+                    found.append(f"{short}.{fn.name}@{name}")
+                elif name not in PLAIN_DECORATORS:
+                    fail(d, f"decorator on {fn.name} not accepted")
+            for dflt in list(fn.args.defaults) + [x for x in fn.args.kw_defaults if x is not None]:
+                if _is_container(dflt):
+                    found.append(f"{short}.{fn.name}(mutable default)")
+            for n in ast.walk(fn):
+                if isinstance(n, ast.Global):
+                    found += [f"{short}.{g} (global in {fn.name})" for g in n.names]
+                tgts = []
+                if isinstance(n, ast.Assign):
+                    tgts = n.targets
+                elif isinstance(n, (ast.AugAssign, ast.AnnAssign)):
+                    tgts = [n.target]
+                elif isinstance(n, ast.Delete):
+                    tgts = n.targets
+                for t in tgts:
+                    if isinstance(t, ast.Subscript) and isinstance(t.value, ast.Name) and t.value.id in module_containers:
+                        found.append(f"{short}.{t.value.id} (stored in {fn.name})")
+                    if isinstance(t, ast.Attribute) and isinstance(t.value, ast.Name) and t.value.id in func_names:
+                        found.append(f"{short}.{t.value.id}.{t.attr} (function attribute set in {fn.name})")
+                if (isinstance(n, ast.Call) and isinstance(n.func, ast.Attribute) and n.func.attr in MUTATORS
+                        and isinstance(n.func.value, ast.Name) and n.func.value.id in module_containers):
+                    found.append(f"{short}.{n.func.value.id} (.{n.func.attr} in {fn.name})")
+    out = []
+    for f in found:
+        if f not in out:
+            out.append(f)
+    for f in out:
+        if not all(32 <= ord(c) < 127 and c != '"' for c in f):
+            fail(None, "state name not printable")
+    return out
+
+
+def render(names, align, memo, maxsize, key, delims, state=()) -> str:
     nm = "; ".join('("%s"%%string, %s)' % (s.replace('"', '""'), m) for s, m in names)
     br = "\n".join(f"  | {m} => ({align[m][0]}, {align[m][1]})" for m in MEMBERS.values())
     return (PRELUDE +
@@ -183,7 +264,8 @@ def render(names, align, memo, maxsize, key, delims) -> str:
             f"Definition src_memoised : bool := {'true' if memo else 'false'}.\n"
             f"Definition src_memo_maxsize : nat := {maxsize}%nat.\n"
             f"Definition src_memo_key : list key_field := [{'; '.join(key)}].\n"
-            f"Definition src_delims : list delim := [{'; '.join(delims)}].\n")
+            f"Definition src_delims : list delim := [{'; '.join(delims)}].\n"
+            "Definition src_loader_state : list string := [" + "; ".join('"%s"%%string' % x for x in state) + "].\n")
 
 
 def translate(repo: Path) -> str:
@@ -195,7 +277,7 @@ def translate(repo: Path) -> str:
     align = _align(tree)
     memo, maxsize, key = _memo(tree)
     delims = _delims(repo)
-    return render(names, align, memo, maxsize, key, delims)
+    return render(names, align, memo, maxsize, key, delims, _state(repo))
 
 
 # the last accepted shape (unchanged tree); keeps a model available for the failing-input search
@@ -204,5 +286,5 @@ FALLBACK = render(
      ("bottom_left", "BottomLeft"), ("bottom_right", "BottomRight")],
     {"Center": ("(Z.quot (oy - ay) 2)", "(Z.quot (ox - ax) 2)"), "TopLeft": ("(oy - ay)", "(0)"),
      "TopRight": ("(oy - ay)", "(ox - ax)"), "BottomLeft": ("(0)", "(0)"), "BottomRight": ("(0)", "(ox - ax)")},
-    True, 128, ["KShape", "KFile", "KPosX", "KPosY", "KAlign", "KAllow"],
+    False, 0, ["KShape", "KFile", "KPosX", "KPosY", "KAlign", "KAllow"],
     ["DTab", "DSpace", "DComma", "DBar", "DSemicolon"])
